@@ -137,6 +137,13 @@ def run_case(case, ctx):
             ctx.skip('build: ' + type(e).__name__ + ': ' + str(e)[:80])
             return
         rng = random.Random(case['seed'])
+        # a phase of the search in which one parameter group is frozen (both twins alike): the
+        # observers must leave requires_grad alone
+        freeze = [None, 'train_nas_only', None, 'train_net_only'][(case['seed'] // 3) % 4]
+        if freeze:
+            for m in (M, T):
+                getattr(m['nas'], freeze)()
+            ctx.cls('frozen-group:' + freeze)
         prune = kind == 'pit' and case['seed'] % 2 == 0     # PIT: masks pruned for real
         nasfactory.randomize_nas_params(M['nas'], random.Random(case['seed']), prune=prune)
         nasfactory.randomize_nas_params(T['nas'], random.Random(case['seed']), prune=prune)
